@@ -33,11 +33,13 @@ pub struct Opts {
     pub fold: bool,
     /// N = 8, rank 1, small sizes (Miri / valgrind budgets); part of the case identity
     pub tiny: bool,
+    /// the scratch slice starts this many bytes past a 64-byte boundary (0 = aligned window)
+    pub misalign: usize,
 }
 
 impl Default for Opts {
     fn default() -> Self {
-        Opts { fill_seed: 1, scratch: ScratchMode::Generous, fold: false, tiny: false }
+        Opts { fill_seed: 1, scratch: ScratchMode::Generous, fold: false, tiny: false, misalign: 0 }
     }
 }
 
@@ -116,8 +118,8 @@ impl Ctx {
         self.tmp_bytes = bytes;
         let mut sw = match self.opts[self.cur].scratch {
             // generous = far more than any inner re-assertion can ask for (glwe_trace re-asserts its full query for a larger temporary)
-            ScratchMode::Generous => ScratchWin::new(3 * bytes + (256 << 10)),
-            ScratchMode::Exact => ScratchWin::new(bytes),
+            ScratchMode::Generous => ScratchWin::new_misaligned(3 * bytes + (256 << 10), self.opts[self.cur].misalign),
+            ScratchMode::Exact => ScratchWin::new_misaligned(bytes, self.opts[self.cur].misalign),
             ScratchMode::ExactUninit => return ScratchWin::new_uninit(bytes),
         };
         sw.fill(&mut self.rf);
